@@ -9,14 +9,17 @@ D=/verif/seeded/$NAME; mkdir -p $D
 cp $WT/SEED/patch.diff $WT/SEED/meta.json $D/ 2>/dev/null
 cp $WT/SEED/demo_test.go $D/demo_test.go.txt 2>/dev/null
 cd $WT
+# normalise the worktree to HEAD + the recorded patch (guards against foreign hunks left by shared-stash accidents)
+git checkout -q -- . && git apply $WT/SEED/patch.diff || { echo "RECORDED PATCH DOES NOT APPLY TO HEAD"; exit 3; }
 DEMO=$(git status --short | grep '^??' | grep '_test.go' | awk '{print $2}' | head -1)
 PKG=./$(dirname $DEMO)
 echo "demo file: $DEMO pkg: $PKG"
 RUN=$(grep -o 'func Test[A-Za-z0-9_]*' $DEMO | sed 's/func //' | paste -sd'|')
 echo "== demo WITH change"; go test -vet=off -count=1 -run "$RUN" $PKG > $D/demo_with.log 2>&1; W=$?; tail -3 $D/demo_with.log
-git stash -q
+# (git stash is shared by all worktrees of a repository: toggle the source change with its own patch instead)
+git diff > $D/.wt.diff; git apply -R $D/.wt.diff
 echo "== demo WITHOUT change"; go test -vet=off -count=1 -run "$RUN" $PKG > $D/demo_without.log 2>&1; WO=$?; tail -3 $D/demo_without.log
-git stash pop -q
+git apply $D/.wt.diff; rm -f $D/.wt.diff
 echo "demo exit with=$W without=$WO"
 cd /repo && git apply $D/patch.diff || { echo "PATCH DOES NOT APPLY"; exit 3; }
 PKGS=$(git diff --name-only | xargs -n1 dirname | sort -u | sed 's|^|./|' | tr '\n' ' ')
